@@ -86,7 +86,7 @@ def main():
         "engines": [{"name": "go-pbt-harness", "path": "harness", "serves_properties": [c["property_id"] for c in checks],
                      "kind_free_text": "Go test packages (one process per property): exhaustive small-scope enumeration, pgregory.net/rapid generators/state machines with shrinking, native go fuzzing in thorough tiers; explicit reference oracles in harness/ref"}],
         "checks": checks,
-        "notes": "All checks rebuild the library from /repo's working tree (go.mod replace => /repo). Exit 0 held / 1 VIOLATION / 2 inconclusive (build failure, timeout). VERIF_SEED selects rapid seeds and random strata. Every check combines exhaustive small-scope enumeration, seeded random strata and pgregory.net/rapid properties (shrinking) against an explicit independent oracle; across checks the generators also cover reused guarded caller buffers, derived input types, settings changed between calls (incl. replaced package-level Formatter/Parser functions), cold-start child processes, retained and caller-overwritten results, conventional special texts, confusable runes, length/nesting/numeric ladders, recurrence of a text after up to 200000 others, values of different provenance, several separators replaced at once, renderings right after a parse of non-canonical text and first calls of a process under other settings (DESIGN.md section 9 table, sections 10 and 12). A run that meets more than 3 million failing cases stops starting new work, and violations recorded before go test's time limit are reported by a watchdog; running out of time is never reported as a violation. The thorough tier adds native go fuzzing for C03, C05, C08, C09, C10, C12 and C18. Fixed defects are listed in KNOWN_FINDINGS.txt (fixed: lines suppress nothing).",
+        "notes": "All checks rebuild the library from /repo's working tree (go.mod replace => /repo). Exit 0 held / 1 VIOLATION / 2 inconclusive (build failure, timeout). VERIF_SEED selects rapid seeds and random strata. Every check combines exhaustive small-scope enumeration, seeded random strata and pgregory.net/rapid properties (shrinking) against an explicit independent oracle; across checks the generators also cover reused guarded caller buffers, derived input types, settings changed between calls (incl. replaced package-level Formatter/Parser functions), cold-start child processes, retained and caller-overwritten results, conventional special texts, confusable runes, length/nesting/numeric ladders, recurrence of a text after up to 200000 others, values of different provenance, several separators replaced at once, renderings right after a parse of non-canonical text, first calls of a process under other settings, buffer capacities / padding lengths / member counts chosen relative to the output length and the configured limits, the neighbouring entry point called on the same argument just before, and per-configuration (GOMAXPROCS, goroutines) bit statistics of generated IDs (DESIGN.md section 9 table, sections 10 and 12). A run that meets more than 3 million failing cases stops starting new work, and violations recorded before go test's time limit are reported by a watchdog; running out of time is never reported as a violation. The thorough tier adds native go fuzzing for C03, C05, C08, C09, C10, C12 and C18. Fixed defects are listed in KNOWN_FINDINGS.txt (fixed: lines suppress nothing).",
     }
     if na:
         m["not_applicable"] = na
